@@ -52,6 +52,8 @@ def preseed(name, **subst):
     with open(spec.origin, "rb") as f:
         code = compile(f.read(), spec.origin, "exec")
     exec(code, m.__dict__)
+    # import statements in the source rebind library names: substitute them again
+    m.__dict__.update(subst)
     parent = sys.modules.get(m.__package__)
     if parent is not None:
         setattr(parent, full.rpartition(".")[2], m)
